@@ -537,7 +537,13 @@ PROGS = {
     'disc||disc': ([('disc',)], [('disc_imm',)]),
     'disc,connect||disc': ([('disc',), ('connect',)], [('disc',)]),
     'connect,disc||connect': ([('connect',), ('disc',)], [('connect',)]),
+    # the networking thread ends (server kick / decoder error) while a user
+    # thread calls in: only from the 'play' start state
+    'kick||connect': ([('srv_kick',), ('connect',)], []),
+    'garbage||connect': ([('srv_garbage',), ('connect',)], []),
+    'kick||disc,connect': ([('srv_kick',), ('disc',), ('connect',)], []),
 }
+SERVER_PROGS = ('kick||connect', 'garbage||connect', 'kick||disc,connect')
 
 
 def sched_body(W, start, prog):
@@ -595,6 +601,10 @@ def sched_body(W, start, prog):
                 conn.disconnect()
             elif op[0] == 'disc_imm':
                 conn.disconnect(immediate=True)
+            elif op[0] == 'srv_kick':
+                W.servers[-1].play(('disconnect', '{"text":"bye"}'))
+            elif op[0] == 'srv_garbage':
+                W.servers[-1].play(('raw', 0x21, b'\x01'))
             results[tag] = 'ok'
         except InvalidState:
             results[tag] = 'invalid'
@@ -634,6 +644,7 @@ def sched_body(W, start, prog):
     opened = len(W.net.conns) + W.net.refused - base_tcp
     okcalls = sum(1 for k, v in results.items()
                   if v == 'ok' and k.split(':')[1] in ('connect', 'status'))
+    # (server-side triggers 'srv_*' are not calls of the client API)
     if opened != okcalls:
         viol.append(('tcp-count', '%d TCP connections were opened by %d '
                      'accepted connect()/status() calls (%r)'
@@ -705,7 +716,9 @@ def racing_factory(params):
     return scenario
 
 
-QUICK_B = {(s, p): 1 for s in STARTS for p in PROGS}
+QUICK_B = {(s, p): 1 for s in STARTS for p in PROGS
+           if (p in SERVER_PROGS) == False}
+QUICK_B.update({('play', p): 2 for p in SERVER_PROGS})
 QUICK_B.update({(s, 'connect||disc'): 2 for s in ('fresh', 'play')})
 QUICK_B.update({(s, 'connect||connect'): 2 for s in ('fresh', 'disconnected')})
 
